@@ -106,12 +106,15 @@ def _on_alarm(signum, frame):
 
 
 def guarded(fn, secs):
-    signal.signal(signal.SIGALRM, _on_alarm)
-    signal.setitimer(signal.ITIMER_REAL, secs)
+    # CPU seconds of this process (ITIMER_PROF), so that a loaded machine
+    # cannot turn a slow run into a 'hang'; the parent additionally enforces
+    # a generous wall-clock limit per job (pool_map)
+    signal.signal(signal.SIGPROF, _on_alarm)
+    signal.setitimer(signal.ITIMER_PROF, secs)
     try:
         return fn()
     finally:
-        signal.setitimer(signal.ITIMER_REAL, 0)
+        signal.setitimer(signal.ITIMER_PROF, 0)
 
 
 def budget_for(text):
@@ -151,9 +154,16 @@ def jcanon(x):
     return json.dumps(x, sort_keys=True, default=repr)
 
 
+class NotJson(Exception):
+    pass
+
+
 def jround(d):
     """The stored form: what a JSON column gives back."""
-    return json.loads(json.dumps(d))
+    try:
+        return json.loads(json.dumps(d))
+    except (TypeError, ValueError) as e:
+        raise NotJson(str(e))
 
 
 def reset_db():
@@ -355,7 +365,7 @@ def call_direct(c):
     """-> spec or None; sets outcome."""
     try:
         spec = guarded(lambda: PARSERS[c.kind](c.text), budget_for(c.text))
-        c.outcome = 'accept'
+        c.outcome = 'accept' if spec is not None else 'accept-none'
         return spec
     except mexc.DSLParsingException as e:
         c.outcome, c.cls = 'reject', type(e).__name__
@@ -402,6 +412,12 @@ def compare(c, what, ref_view, mk, build):
     """build() -> spec in stored form; compared with the fresh view."""
     try:
         v = m_view(mk, build())
+    except SliceError as e:
+        c.problem('unstable/%s/%s/%s' % (what, mk, e.reason),
+                  '%s: the definition text kept for the %s is not the %s '
+                  'written in the submitted document: %s'
+                  % (what, mk, mk, e))
+        return
     except Exception as e:      # noqa
         site, _ = crash_site(e)
         c.problem('unstable/%s/%s-fails/%s' % (what, mk, type(e).__name__),
@@ -575,12 +591,19 @@ def check_stored(c, ms, views, wb_view):
                         _member_from_cut(t, n, mk))
 
 
+class SliceError(Exception):
+    def __init__(self, reason, msg):
+        Exception.__init__(self, msg)
+        self.reason = reason
+
+
 def _one_wf(text, name):
     ls = sp.get_workflow_list_spec_from_yaml(text, validate=True)
     for w in ls.get_workflows():
         if str(w.get_name()) == str(name):
             return w
-    raise ValueError('definition text has no workflow %r' % (name,))
+    raise SliceError('slice-lacks-member',
+                     'definition text has no workflow %r' % (name,))
 
 
 def _one_act(text, name):
@@ -588,23 +611,48 @@ def _one_act(text, name):
     for a in ls.get_actions():
         if str(a.get_name()) == str(name):
             return a
-    raise ValueError('definition text has no action %r' % (name,))
+    raise SliceError('slice-lacks-member',
+                     'definition text has no action %r' % (name,))
 
 
 def _member_from_cut(text, name, mk):
     """The text slice kept for a workbook member is `<name>:` + its body."""
-    d = sp.parse_yaml(text)
+    try:
+        d = sp.parse_yaml(text)
+    except mexc.DSLParsingException as e:
+        raise SliceError('slice-unparsable', 'the slice is not YAML: %s'
+                         % str(e)[:120])
+    if not d:
+        raise SliceError('slice-empty', 'the slice is empty: %r' % text[:60])
     if not isinstance(d, dict) or [str(k) for k in d] != [str(name)]:
-        raise ValueError('slice does not hold exactly the member %r: keys=%s'
-                         % (name, list(d)[:5] if isinstance(d, dict)
-                            else type(d).__name__))
+        raise SliceError(
+            'slice-wrong-keys',
+            'the slice does not hold exactly the member %r: keys=%s'
+            % (name, list(d)[:5] if isinstance(d, dict)
+               else type(d).__name__))
     body = list(d.values())[0]
     if not isinstance(body, dict):
-        raise ValueError('slice body of %r is %s' % (name,
-                                                     type(body).__name__))
-    body['name'] = list(d.keys())[0]
-    body['version'] = '2.0'
-    return m_build(mk, body)
+        raise SliceError('slice-body-not-a-mapping',
+                         'the slice body of %r is %s: %r'
+                         % (name, type(body).__name__, text[:80]))
+    key = list(d.keys())[0]
+    try:
+        if mk == 'wf':
+            ls = sp.get_workflow_list_spec({'version': '2.0', key: body},
+                                           True)
+            return ls.get_workflows()[0]
+        ls = sp.get_action_list_spec({'version': '2.0', key: body}, True)
+        return ls.get_actions()[0]
+    except mexc.DSLParsingException as e:
+        raise SliceError('slice-invalid-definition',
+                         'the slice %r... is not a valid %s definition: %s'
+                         % (text[:60], mk, str(e).split('\n')[0][:120]))
+    except Exception:       # noqa
+        # validation itself fails on this member (reported by the totality
+        # oracle where it applies): compare without validating
+        body['name'] = key
+        body['version'] = '2.0'
+        return m_build(mk, body)
 
 
 def evaluate(kind, text, expected=None, expect=None, rest=True):
@@ -644,7 +692,13 @@ def evaluate(kind, text, expected=None, expect=None, rest=True):
             c.facts['expr_fields'] += len(M.expr_fields(kind, doc))
         except yaml.YAMLError:
             pass
-        ms, views, wb_view = check_stability(c, spec)
+        try:
+            ms, views, wb_view = check_stability(c, spec)
+        except NotJson:
+            # the accepted document holds values JSON cannot store (dates,
+            # bytes): the create call below shows what the service does
+            c.facts['accepted_not_json'] += 1
+            ms = None
     if rest:
         st, body = call_rest(c, '/validate')
         if st is not None and st < 500:
@@ -659,8 +713,8 @@ def evaluate(kind, text, expected=None, expect=None, rest=True):
                 else:
                     c.problem('validate/odd-answer/%s' % st,
                               'validate answered %s %s' % (st, body[:100]))
-            elif c.outcome in ('accept', 'reject') and \
-                    valid != accepted:
+            elif c.outcome in ('accept', 'accept-none', 'reject') and \
+                    valid != (c.outcome != 'reject'):
                 c.problem('validate/disagrees-with-parser',
                           'validate says valid=%s, the parser %ss'
                           % (valid, c.outcome))
@@ -673,7 +727,7 @@ def evaluate(kind, text, expected=None, expect=None, rest=True):
                     c.problem('create/stored-although-rejected',
                               'create answered %d for a text validation '
                               'rejects (%s)' % (st, c.cls))
-                elif accepted:
+                elif accepted and ms is not None:
                     try:
                         check_stored(c, ms, views, wb_view)
                     except Exception as e:      # noqa
@@ -769,7 +823,7 @@ def job_case(job):
         anch = M.has_raw(tree, ('&', '*'))
         other_raw = M.has_raw(tree) and not anch
         expected = None
-        if not other_raw:
+        if anch and not other_raw:
             expected = (M.expected_plain(tree), anch)
         return s['kind'], text, expected, None, job[3] if len(job) > 3 \
             else True
@@ -805,8 +859,8 @@ def _pool_worker(widx, jobs, counter, lock, cur, started, outdir):
             counter.value += 1
         if i >= len(jobs):
             break
-        cur[widx] = i
         started[widx] = time.time()
+        cur[widx] = i
         try:
             r = run_job(jobs[i])
         except BaseException:       # noqa
@@ -898,15 +952,12 @@ def _job_hard_limit(job, hard_s):
 
 # ---------------------------------------------------------------- tiers
 QUICK_MUTATED = (
-    'gen/err_route', 'gen/guard_var', 'gen/publish_guard',
-    'gen/defaults_on_error', 'gen/policies', 'gen/with_items',
-    'gen/adv_publish', 'gen/defaults_policies', 'gen/reverse2',
-    'gen/vars_input', 'gen/cmd_fail', 'genj/publish_guard', 'gen/join_2of3',
-    'gen/workbook', 'gen/actions',
-    'file/mistral/tests/resources/action_v2.yaml',
+    'gen/guard_var', 'gen/policies', 'gen/adv_publish',
+    'gen/defaults_policies', 'gen/reverse2', 'gen/vars_input',
+    'gen/with_items', 'gen/join_one', 'genj/bad_guard',
+    'gen/workbook_small', 'gen/actions',
     'file/mistral/tests/resources/wb_v2.yaml',
     'file/mistral/resources/actions/wait_ssh.yaml',
-    'file/rally-jobs/extra/scenarios/with_items/wb.yaml',
 )
 MAX_NODES_MUTATED = 250     # larger seeds: baseline only
 PAIR_MAX_TASKS = 3
@@ -1076,6 +1127,9 @@ def main(tier):
         doc = job_doc(info['job'])
         doc['group'] = g
         rep.violation(g, msg, doc)
+    rep.extra['violation_groups'] = {
+        g: {'cases': groups[g]['n'], 'smallest': job_label(groups[g]['job'])}
+        for g in sorted(groups) if g not in harness_groups}
     rep.counters.update(out_counts)
     rep.counters.update({'fact:' + k: v for k, v in facts.items()})
     rep.counters['violation_groups'] = len(groups) - len(harness_groups)
@@ -1123,7 +1177,7 @@ def main(tier):
     return rep.finish(rule=rule, exhaustive=exhaustive)
 
 
-def replay(doc):
+def _replay_inproc(doc):
     app()
     if doc.get('mode') == 'run':
         c = evaluate_run(doc['text'], doc['tag'])
@@ -1134,11 +1188,55 @@ def replay(doc):
         c = evaluate(doc['kind'], doc['text'], expected, doc.get('expect'),
                      doc.get('rest', True))
     want = doc.get('group')
-    hits = [d for g, d in c.problems if want is None or g == want]
+
+    def match(g):
+        if want is None:
+            return True
+        if want.startswith('hang/'):
+            return g.startswith('hang/')
+        return g == want
+    hits = [d for g, d in c.problems if match(g)]
     if hits:
         return True, '%s: %s' % (want, hits[0])
     return False, 'no problem of group %s (outcome=%s, other problems=%s)' % (
         want, c.outcome, [g for g, _ in c.problems])
+
+
+def replay(doc):
+    """Re-evaluates one recorded case in a child process, so that a case
+    that blocks outside the interpreter's reach is still a verdict."""
+    limit = 8 * budget_for(doc.get('text', '')) + HARD_EXTRA_S
+    r, w = os.pipe()
+    pid = os.fork()
+    if pid == 0:
+        os.close(r)
+        try:
+            res = _replay_inproc(doc)
+        except BaseException:      # noqa
+            res = (False, 'replay failed: ' + traceback.format_exc()[-400:])
+        try:
+            with os.fdopen(w, 'wb') as f:
+                pickle.dump(res, f)
+        finally:
+            os._exit(0)
+    os.close(w)
+    t0 = time.time()
+    while time.time() - t0 < limit:
+        p, _st = os.waitpid(pid, os.WNOHANG)
+        if p:
+            break
+        time.sleep(0.05)
+    else:
+        os.kill(pid, signal.SIGKILL)
+        os.waitpid(pid, 0)
+        os.close(r)
+        return True, ('hang/hard: no answer within %.0f s wall clock and no '
+                      'reaction to the CPU-time watchdog' % limit)
+    with os.fdopen(r, 'rb') as f:
+        data = f.read()
+    if not data:
+        return False, 'replay child died without a result'
+    return pickle.loads(data)
 
 
 if __name__ == '__main__':
